@@ -21,6 +21,10 @@ class InjectedFault(Exception):
     """Raised by an observer at a chosen (step, phase)."""
 
 
+class InjectedAbort(BaseException):
+    """Like InjectedFault, but outside the Exception hierarchy (as KeyboardInterrupt / SystemExit are)."""
+
+
 # --------------------------------------------------------------------------- rank allocator
 class _RankAlloc(object):
     def __init__(self):
